@@ -40,6 +40,8 @@ def preempted_parent_scenarios():
     """The caller of terminate() is preempted (sleeps) at each line of its own call: everything else gets time to run."""
     out = []
     out.append({'kind': 'T', 'target': 't_spin', 'phase': 'parent-preempted/busy', 'parent_arm': PARENT_ARM, 'observe': 'terminate', 'timeout': 5})
+    # the thread ends on its own while the caller is held inside terminate()
+    out.append({'kind': 'T', 'target': 't_ret_50ms', 'phase': 'parent-preempted/ending-on-its-own', 'parent_arm': PARENT_ARM, 'observe': 'terminate', 'timeout': 5})
     out.append({'kind': 'PT', 'target': 'p_echo', 'inputs': [], 'close': False, 'idle_terminate': True, 'phase': 'parent-preempted/idle',
                 'parent_arm': PARENT_ARM, 'timeout': 5})
     out.append({'kind': 'PT', 'target': 'p_echo', 'inputs': [1], 'close': False, 'idle_terminate': True, 'phase': 'parent-preempted/idle-after-one',
@@ -230,7 +232,7 @@ def ctrl_held_part(ctx):
 def own_outcomes(case):
     """The outcomes the target produces on its own: list of (has_error, result, error)."""
     t = case['target']
-    if t in ('t_loop', 't_tryfinally', 't_ret_now'):
+    if t in ('t_loop', 't_tryfinally', 't_ret_now', 't_ret_50ms'):
         return [(False, 7, None)]
     if t in ('t_raise', 't_raise_now'):
         return [(True, None, {'exc': 'ValueError', 'args': ['a', 1]})]
